@@ -96,10 +96,14 @@ def formatter_checks(ctx, conf):
 def make_recording(rng):
     width = rng.choice((1, 2, 2))
     channels = rng.choice((1, 1, 2, 3))
-    rate = rng.choice((8000, 16000, 16000, 1000))
-    a = rng.choice((None, None, 0.01, 0.02, 0.05, 0.005))
+    rate = rng.choice((8000, 16000, 16000, 1000, 22050, 11025))
+    a = rng.choice((None, None, 0.01, 0.02, 0.05, 0.005, 0.0125, 0.0333))
     win = DEFAULTS["a"] if a is None else a
-    block = int(round(win * rate))
+    # window * rate need not be whole (22050 Hz x 10 ms = 220.5, 1000 Hz x 12.5 ms): the window then lasts floor(...) samples and
+    # the printed times count in that effective duration, exactly as split() does
+    block = int(win * rate)
+    if abs(win * rate - round(win * rate)) < 1e-6:
+        block = int(round(win * rate))
     thr = rng.choice((None, 45.0, 55.0, -15.0)) if width == 2 else rng.choice((25.0, 30.0, -15.0))  # a negative threshold is as good as any
     eff_thr = DEFAULTS["e"] if thr is None else thr
     pattern = []
@@ -166,15 +170,20 @@ def build_argv(rng, rec, tmp, idx, allow_files=True, in_process=True):
         argv += [rng.choice(("-u", "--use-channel")), str(rec["uc"])]
         kw["use_channel"] = rec["uc"]
     win = kw["analysis_window"]
+    # a window that is not a whole number of samples lasts floor(win*rate) samples: durations are generated (and, by the program as
+    # by split() on a reader, counted) in that effective window, with one window of slack so that the tuple stays a valid one
+    frac = abs(win * rate - round(win * rate)) > 1e-6
+    if frac:
+        win = int(win * rate) / rate
     if rng.random() < 0.6:
         n = rng.choice((1, 2, 5, 15, 15, 120)) * win
         argv += [rng.choice(("-n", "--min-duration")), repr(n)]
         kw["min_dur"] = n
     if rng.random() < 0.6:
-        m = max(kw["min_dur"], rng.choice((5, 15, 25, 100, 300)) * win)
+        m = max(kw["min_dur"] + (win if frac else 0), rng.choice((5, 15, 25, 100, 300)) * win)
         argv += [rng.choice(("-m", "--max-duration")), repr(m)]
         kw["max_dur"] = m
-    if rng.random() < 0.08:
+    if rng.random() < 0.08 and not frac:
         # min and max of the SAME number of windows, written the way arithmetic and people write them: k*w (0.07000000000000001)
         # against the decimal literal (0.07) - in seconds min exceeds max by one ulp, in windows they are equal
         k = rng.choice((3, 7, 11, 13))
@@ -184,10 +193,10 @@ def build_argv(rng, rec, tmp, idx, allow_files=True, in_process=True):
             kw["min_dur"], kw["max_dur"] = n, m
             meta["min_dur_one_ulp_above_max_dur"] = True
     if kw["min_dur"] > kw["max_dur"] and not meta.get("min_dur_one_ulp_above_max_dur"):  # keep the tuple valid: an invalid one is a user error, not the tool's
-        m = kw["min_dur"] + rng.choice((0, 5)) * win
+        m = kw["min_dur"] + rng.choice((1, 5) if frac else (0, 5)) * win
         argv += ["-m", repr(m)]
         kw["max_dur"] = m
-    if rng.random() < 0.6 or kw["max_silence"] >= kw["max_dur"]:
+    if rng.random() < 0.6 or kw["max_silence"] >= kw["max_dur"] - (win if frac else 0):
         s = rng.choice((0, 1, 3, 29, 30)) * win
         if s >= kw["max_dur"] - win:
             s = 0
@@ -355,6 +364,14 @@ def run_in_process(argv, stdin_bytes, pipe_rng=None):
     while _time.monotonic() < t_end and len(threading.enumerate()) > 1:
         _time.sleep(0.005)
     res["threads_left"] = [t.name for t in threading.enumerate() if t is not threading.current_thread()]
+    for t in threading.enumerate():
+        # recorded above (and judged by the caller); a worker left behind must not keep this process from going on and ending
+        if t is not threading.current_thread() and callable(getattr(t, "stop", None)):
+            try:
+                t.stop()
+                t.join(3)
+            except Exception:
+                pass
     res["stdout"], res["stderr"] = out.getvalue(), err.getvalue()
     return res
 
@@ -514,13 +531,32 @@ def check_cli(ctx, rec, argv, kw, meta, res, mode):
         if res["rc"] != 1:
             ctx.violation("-j-without--O-does-not-exit-with-status-1", w)
         return
+    audio_kw = meta["audio_kw"]
+    data = rec["data"]
+    aw_ = kw["analysis_window"]
+    frac_ = abs(aw_ * rec["rate"] - round(aw_ * rec["rate"])) > 1e-6
+    if frac_:
+        try:
+            auditok.split(auditok.AudioReader(b"", block_dur=aw_, **audio_kw),
+                          **{k_: v_ for k_, v_ in kw.items() if k_ not in ("analysis_window", "max_read")})
+        except ValueError:
+            # the API itself rejects this tuple (a user error): what the program does with it is not stated
+            ctx.count("tuples_rejected_by_the_api_not_judged")
+            return
     if res["rc"] != 0:
         ctx.case(repr(case), True)
         ctx.violation("exit-status-not-0", w)
         return
-    audio_kw = meta["audio_kw"]
-    data = rec["data"]
-    regions = list(auditok.split(data, **kw, **audio_kw))
+    if frac_:
+        # -a times the rate is not a whole number of samples.  The program hands split() an AudioReader built with block_dur=-a,
+        # and for a reader the statements (C06) count every duration in the reader's own block duration floor(a*rate)/rate, not
+        # in the number given: the corresponding API call is split() on such a reader (same ruling as C09, DESIGN 14.16)
+        ctx.count("runs_whose_window_is_not_a_whole_number_of_samples")
+        kw_r = {k_: v_ for k_, v_ in kw.items() if k_ not in ("analysis_window", "max_read")}
+        reader = auditok.AudioReader(data, block_dur=aw_, max_read=kw.get("max_read"), **audio_kw)
+        regions = list(auditok.split(reader, **kw_r))
+    else:
+        regions = list(auditok.split(data, **kw, **audio_kw))
     bps = rec["width"] * rec["channels"]
     lines = [ln for ln in res["stdout"].split("\n") if ln.strip()]
     ctx.case(repr(case), bool(regions))
